@@ -27,12 +27,26 @@ type Term struct {
 	key string
 }
 
-func (t *Term) Key() string { return t.key }
+func (t *Term) Key() string {
+	if t == nil {
+		return "<unresolved>"
+	}
+	return t.key
+}
 func (t *Term) String() string {
 	return pretty(t)
 }
 
 func mk(k byte, s string, obj types.Object, typ types.Type, args ...*Term) *Term {
+	// (&x).f is x.f, *(&x) is x: so that a pointer known equal to &x rewrites to the same terms as x itself
+	if len(args) >= 1 && args[0] != nil && args[0].K == 'a' && len(args[0].A) == 1 {
+		switch k {
+		case 'f':
+			args = append([]*Term{args[0].A[0]}, args[1:]...)
+		case 'd':
+			return args[0].A[0]
+		}
+	}
 	t := &Term{K: k, S: s, Obj: obj, A: args, Typ: typ}
 	var sb strings.Builder
 	sb.WriteByte(k)
